@@ -10,6 +10,7 @@
 //!   VERIF_E5_SHARD  "i/k": this process executes the runs whose scenario index si has si % k == i
 //!   VERIF_E5_OUT    path of the leg-result JSON this process writes
 //!   VERIF_E5_RUNS   optional override of the number of runs
+//!   VERIF_E5_START  first run index (used when a shard is restarted after a crash)
 //!   VERIF_REPLAY    replay file: re-execute exactly that run, print its log and
 //!                   `REPLAY-VIOLATION class=<c>` or `REPLAY-OK`
 //!   VERIF_E5_HASHES n: execute the first n runs and print `HASH <hex>` (determinism self-test)
@@ -259,8 +260,10 @@ pub struct Release {
 }
 #[derive(Clone, Debug, Default)]
 pub struct ParsedLog {
-    /// per scheduled tick: its releases, in log order
+    /// per scheduled tick: the releases of its batch/snapshot hooks, in log order
     pub ticks: Vec<Vec<Release>>,
+    /// per scheduled tick: the in-tick ordering decisions (`observed ...` notes of inline hooks)
+    pub inline: Vec<Vec<Release>>,
     /// releases of top-level observations, in log order
     pub observations: Vec<Release>,
 }
@@ -274,6 +277,7 @@ pub fn parse_log(log: &str) -> ParsedLog {
         let line = raw.trim_start();
         if line.starts_with("Running Tick") {
             out.ticks.push(vec![]);
+            out.inline.push(vec![]);
             in_tick = true;
             continue;
         }
@@ -293,7 +297,8 @@ pub fn parse_log(log: &str) -> ParsedLog {
                 let note = body[pos + 2..].trim().to_string();
                 let rel = Release { location: cur_loc.clone().unwrap_or_default(), note, in_tick: in_tick && is_tick_line };
                 if rel.in_tick {
-                    if let Some(t) = out.ticks.last_mut() {
+                    let dst = if rel.note.starts_with("releasing") { out.ticks.last_mut() } else { out.inline.last_mut() };
+                    if let Some(t) = dst {
                         t.push(rel);
                     }
                 } else {
@@ -527,7 +532,11 @@ pub fn drive(cfg: &Cfg, meta: &PropMeta, scenarios: Vec<Scenario<'_>>, post: Opt
     let selftest_n = if cfg.tier == "thorough" { 400 } else { 100 };
     // runs are assigned to shard processes by *scenario* (si % k), so that a shard only has to
     // build (compile/load) the flows of its own scenarios
-    let mut r = 0;
+    let mut r = std::env::var("VERIF_E5_START").ok().and_then(|s| s.parse().ok()).unwrap_or(0u64);
+    // A panic raised inside the simulator dylib cannot be caught here (the dylib links its own
+    // copy of std: "Rust cannot catch foreign exceptions") and aborts this process. The wrapper
+    // learns which run that was from this marker file.
+    let marker = cfg.out.as_ref().map(|o| PathBuf::from(format!("{}.cur", o.display())));
     while r < runs {
         if cfg.max_s > 0.0 && t0.elapsed().as_secs_f64() > cfg.max_s {
             break;
@@ -539,6 +548,9 @@ pub fn drive(cfg: &Cfg, meta: &PropMeta, scenarios: Vec<Scenario<'_>>, post: Opt
         }
         let sc = &scenarios[si];
         let seed = run_seed(cfg.seed, sc.name, r);
+        if let Some(m) = &marker {
+            let _ = std::fs::write(m, format!("{r} {seed} {}", sc.name));
+        }
         let bytes = bytes_for(seed, EFFECTIVE_BYTES);
         let o = run_guarded(sc, &RunIn { run: r, run_seed: seed, bytes: &bytes, verbose: false, deep: false });
         if let Some(e) = &o.harness_error {
@@ -655,6 +667,9 @@ pub fn drive(cfg: &Cfg, meta: &PropMeta, scenarios: Vec<Scenario<'_>>, post: Opt
         }
         std::fs::write(out, serde_json::to_string(&res).unwrap()).expect("write leg result");
     }
+    if let Some(m) = &marker {
+        let _ = std::fs::remove_file(m);
+    }
     println!(
         "e2e-leg property={} shard={}/{} runs={} nontrivial_distinct={} discarded={} violations={} wall={:.1}s",
         meta.id, shard_i, shard_k, evaluations, distinct.len(), discarded, viols.len(), t0.elapsed().as_secs_f64()
@@ -668,8 +683,8 @@ fn replay(meta: &PropMeta, scenarios: &[Scenario<'_>], path: &PathBuf) {
     let Some(sc) = scenarios.iter().find(|s| s.name == scn) else {
         panic!("HARNESS: unknown scenario '{scn}' for {}", meta.id);
     };
-    let bytes = unhex(v["bytes_hex"].as_str().unwrap_or(""));
     let seed = v["run_seed"].as_u64().unwrap_or(0);
+    let bytes = if v["bytes_from_seed"].as_bool() == Some(true) { bytes_for(seed, EFFECTIVE_BYTES) } else { unhex(v["bytes_hex"].as_str().unwrap_or("")) };
     let o = run_guarded(sc, &RunIn { run: u64::MAX, run_seed: seed, bytes: &bytes, verbose: true, deep: true });
     if let Some(e) = o.harness_error {
         panic!("HARNESS: {e}");
